@@ -4,6 +4,7 @@
 -/
 import N2V.Model.Depfile
 import N2V.Lemmas.DepfileTotal
+import N2V.Lemmas.DepfileSpec
 namespace N2V.C15
 open N2V N2V.Depfile
 
@@ -126,5 +127,27 @@ theorem depfile_parse_total (text : Bytes) : match Depfile.parse text with
     | .ok _ _ => True
     | .perr _ _ => True
     | .bad _ => False := Depfile.parse_total text
+
+
+/-- **Depfiles are read as the compiler wrote them** (byte level).  For every list of entries
+    `target: prerequisite ...` — any number of targets; targets and prerequisites any non-empty
+    runs of path bytes (everything except NUL, space, newline, backslash, CR: colons inside
+    Windows-style paths included); any number of spaces before the colon; before each
+    prerequisite and after the last one any gap of spaces and backslash-newline continuations;
+    any blank space (spaces, blank lines) before, between and after entries — `depfile::parse`
+    returns exactly the listed targets with exactly the listed prerequisites, in order.  With
+    `flatten_distinct` / `flatten_complete` above: the discovered dependencies are exactly the
+    listed prerequisites of all targets.  (A last line without final newline, and CR LF line
+    ends, are covered by the correspondence run only.) -/
+theorem parse_reads_what_was_written (es : List FEntry) (hwf : ∀ e ∈ es, EntryWF e) (eb : Bytes)
+    (heb : blankOk eb) :
+    ∃ s, parse (bodyBytes es eb) = .ok (record (entriesOf es)) s :=
+  parse_spec es hwf eb heb
+
+/-- Non-vacuity: `a.o: a.c \\\n  b.h\n\nc: d\n` as an instance of the format. -/
+example : bodyBytes
+    [⟨[], [97, 46, 111], 0, [([.sp], [97, 46, 99]), ([.sp, .cont, .sp, .sp], [98, 46, 104])], []⟩,
+     ⟨[10], [99], 1, [([.sp], [100])], [.sp]⟩] []
+    = [97,46,111,58,32,97,46,99,32,92,10,32,32,98,46,104,10,10,99,32,58,32,100,32,10] := by decide
 
 end N2V.C15
